@@ -6,7 +6,8 @@
    byte each).  The master picks any frame of the configuration's layout that Send admits
    (deadlock freedom = the demands of Send can always be met, e.g. two bits of one byte), the
    environment returns any data and any counter from WkcVals (below and above 256) or does not
-   answer at all (Lose), the devices set any subset of their outputs.
+   answer at all (Lose), the devices set any subset of their outputs; at any moment the group
+   may be started again (Restart).
 
    With Honest = TRUE the environment is an honest segment instead: the counter that comes
    back is the counter sent plus the number p of terminals that processed the datagram.  Then
@@ -89,7 +90,10 @@ MCUpdate == /\ \E S \in SetSeqs(cfg, OutVars(cfg)), e0 \in 0 .. 1 :
 MCLose == /\ \E e \in (IF k = 0 THEN 0 .. 1 ELSE {errs}) : Lose(e)
           /\ UNCHANGED absent
 
-MCNext == MCSend \/ MCReceive \/ MCLose \/ MCUpdate
+MCRestart == /\ \E c \in MCConfigs : Restart(c)
+             /\ absent' = 0
+
+MCNext == MCSend \/ MCReceive \/ MCLose \/ MCUpdate \/ MCRestart
 MCSpec == MCInit /\ [][MCNext]_<<svars, absent>>
 
 Bound == k <= MaxCycles
